@@ -134,6 +134,15 @@ theorem kepManDv_magnitude (pos vel : V3) (dv_t dv_w : ℝ) (h : NonDeg pos vel)
         = triad (unit vel) (unit (V3.cross pos vel)) from rfl, this]
   unfold V3.norm; simp
 
+/-- a Keplerian continuous maneuver thrusts with `|dkep2dv| / duration`: over its duration it accumulates the Δv of the
+impulsive one -/
+theorem kepContAccel_magnitude (pos vel : V3) (μ a i v da di dOmega duration : ℝ) (h : NonDeg pos vel) (hd : 0 < duration) :
+    V3.norm (kepContAccel pos vel μ a i v da di dOmega duration) * duration
+      = Real.sqrt (dkepDvT μ a i v da di dOmega * dkepDvT μ a i v da di dOmega + dkepDvW μ a i v da di dOmega * dkepDvW μ a i v da di dOmega) := by
+  unfold kepContAccel
+  rw [accel_of_dv_magnitude Tag.tnw pos vel _ duration h hd]
+  unfold V3.norm; simp
+
 /-! ## 3. A frame attached to an orbit -/
 
 /-- **The orbit a frame is attached to sits at that frame's origin** (any orientation tag, any state). -/
@@ -196,11 +205,69 @@ theorem conversions_leave_no_trace (r : Reg) (ops : List Op) (name : String) :
   | cons o rest ih =>
     cases o with
     | reg n e => simp [run, state, ih]
-    | conv n => simp [run, state, ih]
+    | conv n => simp [run, ih]
+
+/-- `_partial` — full statement: *a conversion into frame `name` uses the axes of its latest registration* (`lookupInto =
+lookup`).  Proved when every registration of that name hangs equally far from the converted states (in particular: always
+the same `parent`, e.g. the default).  Missing: a name registered again under a *farther* parent — false of the code, open
+finding C17-reregistered-under-other-parent, witness `C17W.stale_axes_after_reregistration_under_farther_parent`. -/
+theorem into_uses_latest_partial (name : String) (d : Nat) : ∀ (r : Reg), (∀ p ∈ r, p.1 = name → p.2.pdist = d) →
+    lookupInto r name = lookup r name := by
+  have hn : ∀ (r : Reg), (∀ p ∈ r, p.1 = name → p.2.pdist = d) → ∀ e, nearest r name = some e → e.pdist = d := by
+    intro r
+    induction r with
+    | nil => intro _ e h; simp [nearest] at h
+    | cons p rest ih =>
+      intro hall e h
+      obtain ⟨n, e0⟩ := p
+      have hrest : ∀ q ∈ rest, q.1 = name → q.2.pdist = d := fun q hq => hall q (by simp [hq])
+      unfold nearest at h
+      split at h
+      · rename_i hc
+        have hd0 : e0.pdist = d := hall (n, e0) (by simp) hc.1
+        split at h
+        · rename_i e' hnr
+          split at h
+          · injection h with h; subst h; exact ih hrest e' hnr
+          · injection h with h; subst h; exact hd0
+        · injection h with h; subst h; exact hd0
+      · exact ih hrest e h
+  intro r hall
+  unfold lookupInto
+  cases hl : lookup r name with
+  | none => rfl
+  | some e =>
+    by_cases ht : e.tag = "-"
+    · simp [ht]
+    · simp only [ht, if_false]
+      -- the latest registration is a candidate and no candidate is nearer
+      induction r with
+      | nil => simp [lookup] at hl
+      | cons p rest ih =>
+        obtain ⟨n, e0⟩ := p
+        have hrest : ∀ q ∈ rest, q.1 = name → q.2.pdist = d := fun q hq => hall q (by simp [hq])
+        unfold lookup at hl
+        split at hl
+        · rename_i hnn
+          injection hl with hl
+          subst hl
+          have hd0 : e0.pdist = d := hall (n, e0) (by simp) hnn
+          unfold nearest
+          rw [if_pos ⟨hnn, ht⟩]
+          cases hnr : nearest rest name with
+          | none => rfl
+          | some e' =>
+            have := hn rest hrest e' hnr
+            simp only []
+            rw [if_neg (by omega)]
+        · rename_i hnn
+          unfold nearest
+          rw [if_neg (fun h => hnn h.1)]
+          exact ih hrest hl
 
 /-- non-vacuity: QSW frame on orbit 0, a conversion, the same name re-registered TNW on orbit 1, a conversion -/
-example : run [] [Op.reg "tgt" ⟨"QSW", 0⟩, Op.conv "tgt", Op.reg "tgt" ⟨"TNW", 1⟩, Op.conv "tgt"]
-    = [some ⟨"QSW", 0⟩, some ⟨"TNW", 1⟩] := by decide
+example : run [] [Op.reg "tgt" ⟨"QSW", 0, 0⟩, Op.conv "tgt", Op.reg "tgt" ⟨"TNW", 1, 0⟩, Op.conv "tgt"]
+    = [some ⟨"QSW", 0, 0⟩, some ⟨"TNW", 1, 0⟩] := by decide
 
 end registry
 
